@@ -280,6 +280,49 @@ fn add_assign_binary(dest: &mut [u64], src: &[u64])
         }
     }
 }""")
+    u.fn('src/matrix.rs', 'resize', impl=T, ret='r', rules=['A1'],
+         requires=['dm_wf(*old(self))', 'new_height <= old(self).height', 'new_width <= old(self).width', 'new_width >= 1'],
+         ensures=['dm_wf(*final(self))', 'final(self).height == new_height && final(self).width == new_width',
+                  'forall |i2: int, j2: int| 0 <= i2 < new_height && 0 <= j2 < new_width ==> #[trigger] cell(*final(self), i2, j2) == cell(*old(self), i2, j2)'],
+         inserts=[('let words_to_remove = old_row_width - new_row_width;', 'before',
+                   'proof { lemma_ceil_div_mono(new_width as int, old(self).width as int, 64); lemma_ceil_div_exact(new_width as int, 64); lemma_ceil_div_exact(old(self).width as int, 64);'
+                   ' let oh = old(self).height as int;'
+                   ' assert(new_height as int * new_row_width as int <= new_height as int * old_row_width as int) by (nonlinear_arith) requires 0 <= new_height as int, 0 <= new_row_width as int <= old_row_width as int;'
+                   ' assert(new_height as int * old_row_width as int <= oh * old_row_width as int) by (nonlinear_arith) requires 0 <= new_height as int <= oh, 0 <= old_row_width as int; }'),
+                  ('let mut src = 0;', 'replace', 'let mut src: usize = 0; let ghost mut gr: int = 0; let ghost mut gk: int = 0;'),
+                  ('let mut dest = 0;', 'replace', 'let mut dest: usize = 0;'),
+                  ('self.elements.truncate(', 'before',
+                   'proof { assert forall |p: int| 0 <= p < new_height as int * new_row_width as int implies #[trigger] self.elements@[p] == old(self).elements@[(p / new_row_width as int) * old_row_width as int + p % (new_row_width as int)] by {'
+                   ' if words_to_remove == 0 { lemma_fundamental_div_mod(p, new_row_width as int); assert((p / new_row_width as int) * new_row_width as int == new_row_width as int * (p / new_row_width as int)) by (nonlinear_arith); } } }')],
+         loops={0: {'spec': ('invariant self.height == new_height, self.width == new_width, self.elements@.len() == old(self).elements@.len(), dm_wf(*old(self)), new_height <= old(self).height,'
+                             ' new_row_width as int == rw(new_width as int), old_row_width as int == rw(old(self).width as int), 1 <= new_row_width, new_row_width < old_row_width, words_to_remove == old_row_width - new_row_width,'
+                             ' new_height as int * old_row_width as int <= old(self).height as int * old_row_width as int, new_height as int * new_row_width as int <= new_height as int * old_row_width as int,'
+                             ' 0 <= gr <= new_height, 0 <= gk < new_row_width, dest as int == gr * new_row_width as int + gk, src as int == gr * old_row_width as int + gk, (gr == new_height ==> gk == 0),'
+                             ' dest as int <= new_height as int * new_row_width as int,'
+                             ' forall |q: int| dest as int <= q < self.elements@.len() ==> #[trigger] self.elements@[q] == old(self).elements@[q],'
+                             ' forall |p: int| 0 <= p < dest as int ==> #[trigger] self.elements@[p] == old(self).elements@[(p / new_row_width as int) * old_row_width as int + p % (new_row_width as int)],'
+                             ' decreases new_height as int * new_row_width as int - dest as int,'),
+                    'body_top': ('proof { assert(gr < new_height as int) by { if gr >= new_height as int { assert(gr * new_row_width as int >= new_height as int * new_row_width as int) by (nonlinear_arith) requires gr >= new_height as int, new_row_width >= 1; } }'
+                                 ' assert(gr * old_row_width as int + old_row_width as int <= new_height as int * old_row_width as int) by (nonlinear_arith) requires gr + 1 <= new_height as int, old_row_width >= 0;'
+                                 ' assert(gr * new_row_width as int <= gr * old_row_width as int) by (nonlinear_arith) requires gr >= 0, new_row_width <= old_row_width;'
+                                 ' lemma_fundamental_div_mod_converse(dest as int, new_row_width as int, gr, gk); }\n let ghost d0 = dest as int;'),
+                    'body_bottom': ('proof { let nrw = new_row_width as int; if gk + 1 == nrw { gr = gr + 1; gk = 0;'
+                                    ' assert(gr * nrw <= new_height as int * nrw) by (nonlinear_arith) requires gr <= new_height as int, nrw >= 0; }'
+                                    ' else { gk = gk + 1;'
+                                    ' assert(gr * nrw + nrw <= new_height as int * nrw) by (nonlinear_arith) requires gr + 1 <= new_height as int, nrw >= 0; } }'),
+                    'after': ('proof { let nrw = new_row_width as int; if gr < new_height as int { assert(gr * nrw + nrw <= new_height as int * nrw) by (nonlinear_arith) requires gr + 1 <= new_height as int, nrw >= 0; } }')}},
+         opt_inserts=[('if dest % new_row_width == 0 {', 'before',
+                       'proof { let nrw = new_row_width as int; if gk + 1 == nrw { assert((gr + 1) * nrw == gr * nrw + nrw) by (nonlinear_arith);'
+                       ' assert((gr + 1) * old_row_width as int == gr * old_row_width as int + old_row_width as int) by (nonlinear_arith);'
+                       ' lemma_fundamental_div_mod_converse(dest as int, nrw, gr + 1, 0); } else { lemma_fundamental_div_mod_converse(dest as int, nrw, gr, gk + 1); } }')],
+         append="""proof {
+    let o = *old(self); let n = *self; let nrw = rw(new_width as int); let orw = rw(o.width as int);
+    assert forall |i2: int, j2: int| 0 <= i2 < new_height && 0 <= j2 < new_width implies #[trigger] cell(n, i2, j2) == cell(o, i2, j2) by {
+        lemma_word_index(new_height as int, new_width as int, i2, j2);
+        let p = i2 * nrw + j2 / 64;
+        lemma_fundamental_div_mod_converse(p, nrw, i2, j2 / 64);
+    }
+}""")
     u.raw('}')
     u.raw('} // verus!')
     return u
